@@ -354,7 +354,7 @@ pub fn gen_c01(seed: u64, thorough: bool) -> Vec<CaseSpec> {
         push(sp, &mut cases, vec![]);
     }
     // (3) random covering product
-    let total = if thorough { 12000 } else { 1700 };
+    let total = if thorough { 40000 } else { 1700 };
     for _ in 0..total {
         let mut sp = SessP::default();
         let sch = *rng.pick(&Scheme::ALL);
@@ -413,6 +413,16 @@ pub fn gen_c01(seed: u64, thorough: bool) -> Vec<CaseSpec> {
             if ob.src == "file" && ob.cenc != "null" {
                 // refused by create_from_file (documented), nothing to check
                 ob.src = "filecached".into();
+            }
+            // Raptor cannot encode blocks of 2 or 3 symbols (finding D23/D26): keep most sessions clear of it
+            if oti.sch == Scheme::Raptor && rng.chance(7, 8) {
+                ob.cenc = "null".to_string();
+                if rfc_ks(&oti, ob.sz).iter().any(|k| *k == 2 || *k == 3) {
+                    ob.sz = if rng.bool() { oti.e as u64 } else { 4 * oti.b as u64 * oti.e as u64 + rng.below(oti.e as u64) };
+                }
+                if rfc_ks(&oti, ob.sz).iter().any(|k| *k == 2 || *k == 3) {
+                    ob.sz = oti.e as u64;
+                }
             }
             ob.cc = rng.pick(&["-", "-", "nocache", "maxstale", "exp600"]).to_string();
             ob.grp = rng.chance(1, 5);
@@ -505,7 +515,7 @@ pub fn gen_c02(seed: u64, thorough: bool) -> Vec<CaseSpec> {
         }
     }
     // (c) sampled masks / duplications on ~100-packet sessions, all schemes
-    let reps = if thorough { 12 } else { 2 };
+    let reps = if thorough { 40 } else { 2 };
     for rep in 0..reps {
         for sch in Scheme::ALL {
             for w in [1u32, 2, 3, 4] {
@@ -538,7 +548,7 @@ pub fn gen_c02(seed: u64, thorough: bool) -> Vec<CaseSpec> {
                     sp.objs.push(ob);
                 }
                 let s = seed.wrapping_mul(31).wrapping_add(rep * 1000 + w as u64 * 17 + sch as u64);
-                push(sp, &mut cases, vec![Plan::Full, Plan::Sampled { count: if thorough { 200 } else { 60 }, seed: s }, Plan::Dups { count: if thorough { 60 } else { 20 }, seed: s ^ 5 }]);
+                push(sp, &mut cases, vec![Plan::Full, Plan::Sampled { count: if thorough { 300 } else { 60 }, seed: s }, Plan::Dups { count: if thorough { 100 } else { 20 }, seed: s ^ 5 }]);
             }
         }
     }
@@ -579,6 +589,7 @@ pub fn gen_c16(seed: u64, thorough: bool) -> Vec<CaseSpec> {
     let mut rng = Rng::new(seed ^ 0xC16);
     let mut cases = Vec::new();
     let mut n = 0usize;
+    for _round in 0..(if thorough { 6 } else { 1 }) {
     for sch in Scheme::ALL {
         for inband in [true, false] {
             for nobj in 1usize..=3 {
@@ -638,6 +649,7 @@ pub fn gen_c16(seed: u64, thorough: bool) -> Vec<CaseSpec> {
                 }
             }
         }
+    }
     }
     cases
 }
